@@ -6,6 +6,9 @@ package main
 //   parent-* flow_action trigger whose parent run summary is read by templates after a wait (prepareForSprint
 //            re-derives session.parentRun from the trigger)
 //   nested-* a parent with two successive children, the second of which waits (parent links by UUID)
+//   history-*  the same probe (start_session: history / run_summary; a template reading path, results, related runs,
+//            contact, input, now()) before and after waits, with triggers that carry no input (mutation trial M15:
+//            a memoised run.ReceivedInput())
 //   exited-child-flow  templates reading the flow of an exited child / exited parent after a restart; msg trigger with
 //            a keyword match built through the builder API (mutation trials M13, M14 in checks/C02.mutations.md)
 
@@ -111,6 +114,24 @@ func corpusScenarios() []*Scenario {
 			flowDef(3, actionNode(301, 302, map[string]any{"type": "enter_flow", "flow": flowRefJSON(2)}), waitNode(302, 303),
 				actionNode(303, 0, map[string]any{"type": "send_msg", "text": "in 3: p=@parent.run.status c=@child.results.r0 i=@input.text"}))},
 			manual(false), []json.RawMessage{msg(0, "a"), msg(1, "b")}},
+		{"history-before-after-wait", []any{flowDef(1,
+			actionNode(101, 102, map[string]any{"type": "start_session", "flow": flowRefJSON(1), "contacts": []any{map[string]any{"uuid": "820f5923-3369-41c6-b3cd-af577c0bd4b8", "name": "Bob"}}},
+				map[string]any{"type": "send_msg", "text": probeText}),
+			waitNode(102, 103),
+			actionNode(103, 104, map[string]any{"type": "start_session", "flow": flowRefJSON(1), "create_contact": true},
+				map[string]any{"type": "set_contact_timezone", "timezone": "Asia/Tokyo"}, map[string]any{"type": "send_msg", "text": probeText}),
+			waitNode(104, 105),
+			actionNode(105, 102, map[string]any{"type": "start_session", "flow": flowRefJSON(1), "urns": []string{"tel:+12065551212"}},
+				map[string]any{"type": "send_msg", "text": probeText}))},
+			manual(false), []json.RawMessage{msg(0, "a"), msg(1, "b"), msg(2, "c"), msg(3, "d")}},
+		{"history-flow-action-trigger", []any{
+			flowDef(1, actionNode(101, 102, map[string]any{"type": "enter_flow", "flow": flowRefJSON(2)}),
+				actionNode(102, 103, map[string]any{"type": "start_session", "flow": flowRefJSON(2), "create_contact": true}, map[string]any{"type": "send_msg", "text": probeText}),
+				waitNode(103, 104),
+				actionNode(104, 0, map[string]any{"type": "start_session", "flow": flowRefJSON(2), "create_contact": true}, map[string]any{"type": "send_msg", "text": probeText})),
+			flowDef(2, actionNode(201, 202, map[string]any{"type": "start_session", "flow": flowRefJSON(1), "create_contact": true}), waitNode(202, 203),
+				actionNode(203, 0, map[string]any{"type": "start_session", "flow": flowRefJSON(1), "create_contact": true}, map[string]any{"type": "send_msg", "text": probeText}))},
+			flowAction(false), []json.RawMessage{msg(0, "a"), msg(1, "b")}},
 		{"exited-child-flow", []any{
 			flowDef(1, actionNode(101, 102, map[string]any{"type": "enter_flow", "flow": flowRefJSON(2)}), waitNode(102, 103),
 				actionNode(103, 104, map[string]any{"type": "send_msg", "text": "c=@child f=@child.flow.name s=@child.status r=@child.results.r0.value"}), waitNode(104, 105),
